@@ -82,7 +82,10 @@ def main(argv=None):
             try:
                 bstats = mod.run(a.tier, a.seed, procs=a.procs)
             except Exception:
-                print("checker crashed in the bounded tier:\n" + traceback.format_exc()); return 3
+                # refuted obligations of the proof tier are still reported below; without any, a crashed harness is exit 3
+                bcrash = traceback.format_exc(); bstats = {"violations": [], "evaluations": 0, "crashed": bcrash[-600:]}
+                print("checker crashed in the bounded tier:\n" + bcrash)
+                if not violations: return 3
             for v in bstats.get("violations", []):
                 k = match_known(known, a.prop, "B", signature=v.get("signature"))
                 if k: known_hits.append((k, v))
